@@ -11,8 +11,9 @@ from .. import common as C
 ID = 'C02'
 MODEL = 'c02'
 RUNFUN = 'run'
-COQ_TARGETS = ['theories/Properties/C02.vo', 'theories/Extract/RunC02.vo', 'theories/Properties/Chain.vo']
-EXTRA_PROPERTIES = ['Chain']   # cross-package composition theorems (C07 o C02, C09 o C02, C05 o C02 o C07, C04 o C07 o C02)
+COQ_TARGETS = ['theories/Properties/C02.vo', 'theories/Extract/RunC02.vo', 'theories/Properties/Chain.vo',
+               'theories/Properties/ChainRelay.vo']
+EXTRA_PROPERTIES = ['Chain', 'ChainRelay']   # cross-package composition theorems (C07 o C02, C09 o C02, C05 o C02 o C07, C04 o C07 o C02)
 DESIGN_REF = 'DESIGN.md section 6, C02'
 TECHNIQUE = ('Coq proof (ring-generic: window arithmetic of propagate_dft by lia, triple product = defining sum, '
              'Wavefront.field = sum of embeddings) + execution of the extracted model of propagate_dft on the exact group '
@@ -48,10 +49,17 @@ RULE = ('corpus, then random cases over {pupil->image, image->pupil, pupil->imag
         'wavefront the caller holds must be unchanged after each call. Trains: the wavefront passes 2-3 array-valued planes before it is '
         'propagated (Pupil x Pupil stop, Plane x Pupil, pupil -> image -> Image-plane pinhole / slit / field stop -> pupil; stops with '
         'single-sample, single-row/column and box supports, also on a different grid); the oracle builds the input plane from the '
-        'ARRAYS of the planes (product of the transmissions on a canvas), never from the wavefront. lentil is imported afresh for every case, so each replay is '
+        'ARRAYS of the planes (product of the transmissions on a canvas), never from the wavefront. Branches: a shared wavefront whose branches pass a Tilt / a transparent or scalar plane (kept or dropped) is itself '
+        'propagated before and after. Near ties: alpha within 1e-9..2e-4 relative of the FFT-matched 1/n (and 1/2n) without being equal, '
+        'window = input array, both directions (oracle only: arbitrary floats). Guises: amplitudes and output masks as ndarray subclasses '
+        '(MaskedArray with and without masked entries, np.matrix, a metadata subclass), amplitudes scaled by 2**-43..2**20 with a '
+        'tolerance relative to that scale, single values as 0-d / one-element arrays / numpy scalars; arrays handed to the API must stay '
+        'untouched. Large sizes (2**20 output or input samples, 1100 rows, 15 segments, odd sizes) with a vectorised reference. '
+        'lentil is imported afresh for every case, so each replay is '
         'self-contained. non-trivial = history, or non-square or prop_shape < shape or mask or per-axis scales')
 
 TOL = 1e-9
+LMODEL = 512          # largest root-of-unity order the exact model is run with
 PT = {'none': 0, 'pupil': 1, 'image': 2}
 
 
@@ -108,21 +116,31 @@ def step_info(c):
     """per step: exact alphas, whether lentil's float alpha is within 1 ulp, cumulative unitary scale of the chain"""
     px = {0: pair(c['dx'], Fraction)}
     cum = {0: 1.0}
+    unit = {0: 2.0 ** c.get('aexp', 0)}       # natural magnitude of the field (amplitudes are integers times 2**aexp)
+    tilted = {0: False}
     out = []
     for k, (src, call, mul) in enumerate(steps_of(c), start=1):
+        tilted[k] = tilted[src] or (mul is not None and mul['kind'] == 'tilt')
+        unit[k] = unit[src] * (2.0 ** mul.get('aexp', 0) if mul is not None else 1.0)
         if mul is not None:
             px[k], cum[k] = px[src], cum[src]
-            out.append({'mul': True, 'ok': True, 'scale': cum[k]})
+            out.append({'mul': True, 'ok': True, 'scale': cum[k], 'unit': unit[k], 'tilted': tilted[k]})
             continue
         ar, ac, ok = alphas(list(px[src]), call['du'], c['wl'], c['z'], call['os'])
         du = pair(call['du'], Fraction)
         px[k] = (du[0] / call['os'], du[1] / call['os'])
         cum[k] = cum[src] * math.sqrt(abs(float(ar * ac)))
-        out.append({'ar': ar, 'ac': ac, 'ok': ok, 'scale': cum[k]})
+        out.append({'ar': ar, 'ac': ac, 'ok': ok, 'scale': cum[k], 'unit': unit[k], 'tilted': tilted[k]})
     return out
 
 
 # ---- planes, from their ARRAYS (no lentil): transmission on the plane's own grid, and the phasors Plane.multiply forms
+def amp_np(spec):
+    """complex amplitude array of a plane spec: Gaussian integers times 2**aexp (exact in floating point)"""
+    A = to_np(spec['A'])
+    return A * (2.0 ** spec['aexp']) if spec.get('aexp') else A
+
+
 def plane_masks(spec):
     A = to_np(spec['A'])
     m = spec.get('mask')
@@ -136,13 +154,12 @@ def plane_masks(spec):
 
 def transmission(spec):
     """complex transmission of the plane at every sample: amplitude inside the mask(s), 0 outside"""
-    A = to_np(spec['A'])
-    return A * sum(plane_masks(spec))
+    return amp_np(spec) * sum(plane_masks(spec))
 
 
 def plane_phasors(spec):
     """[(data, (offr, offc))]: amplitude*mask on the bounding slice of each mask, offset of the slice centre"""
-    A = to_np(spec['A'])
+    A = amp_np(spec)
     n, m = A.shape
     out = []
     for mk in plane_masks(spec):
@@ -208,16 +225,72 @@ def wf_summary(w):
 NPDT = {'int': np.int64, 'float32': np.float32, 'uint8': np.uint8, 'bool': bool, 'float': float}
 
 
+class Tagged(np.ndarray):
+    """an ndarray subclass that carries metadata (a legal array_like input of the public API)"""
+    def __new__(cls, a, tag='verif'):
+        obj = np.asarray(a).view(cls)
+        obj.tag = tag
+        return obj
+
+    def __array_finalize__(self, obj):
+        self.tag = getattr(obj, 'tag', None)
+
+
+def wrap_array(a, how):
+    """the same data handed over as an ndarray subclass; results must equal those for the plain ndarray"""
+    if not how:
+        return a
+    if how == 'ma':
+        return np.ma.MaskedArray(a)
+    if how == 'ma_masked':                      # some entries flagged invalid: np.asarray still sees the data
+        r, c = np.indices(a.shape)
+        return np.ma.MaskedArray(a, mask=((r + 2 * c) % 3 == 0))
+    if how == 'matrix':
+        return np.matrix(a)
+    if how == 'subclass':
+        return Tagged(a)
+    raise ValueError(how)
+
+
+_HANDED = []      # (what, array handed to lentil, private copy) for the case being run
+
+
+def handed(what, a):
+    if a is not None:
+        _HANDED.append((what, a, np.array(np.asarray(a), copy=True)))
+    return a
+
+
+def handed_changed():
+    for what, a, keep in _HANDED:
+        now = np.asarray(a)
+        if now.shape != keep.shape or now.dtype != keep.dtype or not np.array_equal(now, keep):
+            return f'the caller\'s {what} array was modified'
+    return None
+
+
 def plane_arrays(spec):
     A = to_np(spec['A'])
     if spec.get('adtype'):                    # real-valued amplitude of another dtype (entries are exact in it)
         A = A.real.astype(NPDT[spec['adtype']])
+    if spec.get('aexp'):                      # amplitudes scaled over many decades by a power of two (exact)
+        A = A * A.dtype.type(2.0 ** spec['aexp'])
     mask = None if spec.get('mask') is None else np.array(spec['mask'], dtype=NPDT.get(spec.get('mdtype'), int))
-    return A, mask
+    return handed('amplitude', wrap_array(A, spec.get('awrap'))), handed('plane mask', mask)
 
 
 def mk_plane(lentil, c, spec):
-    """one more plane of the optical train: a Pupil on the pupil grid, or an Image plane (pixelscale left undefined)"""
+    """one more plane of the optical train: a Pupil on the pupil grid, an Image plane (pixelscale left undefined),
+    a plane with a scalar amplitude (1 = a transparent plane), or a Tilt"""
+    if spec['kind'] == 'tilt':
+        return lentil.Tilt(x=fl(spec['x']), y=fl(spec['y']))
+    if 'scalar' in spec:
+        a = complex(*spec['scalar'])
+        a = a.real if a.imag == 0 else a
+        a = int(a) if (spec.get('int') and a == int(a)) else a
+        if spec['kind'] == 'pupil':
+            return lentil.Pupil(amplitude=a, pixelscale=fl_arg(c['dx']), focal_length=fl(c['z']))
+        return lentil.Image() if (a == 1 and spec.get('default')) else lentil.Image(amplitude=a)
     A, mask = plane_arrays(spec)
     if spec['kind'] == 'pupil':
         return lentil.Pupil(amplitude=A, mask=mask, pixelscale=fl_arg(c['dx']), focal_length=fl(c['z']))
@@ -240,20 +313,29 @@ def build_wavefront(lentil, c):
 
 
 def arg_form(v, form):
-    """a per-axis argument in one of its legal spellings"""
+    """an argument in one of its legal spellings: per-axis values as tuple / list / ndarray, a single value as a Python
+    number, a numpy scalar, a 0-d array or a one-element array"""
     if isinstance(v, (list, tuple)):
         return {'tuple': tuple(v), 'list': list(v), 'array': np.array(v)}[form or 'tuple']
+    if form == '0d':
+        return np.array(v)
+    if form == 'arr1':
+        return np.array([v])
+    if form == 'npscalar':
+        return np.asarray(v)[()]
     return v
 
 
 def do_call(lentil, w, call):
-    kw = {'pixelscale': arg_form(fl_arg(call['du']), call.get('du_form')), 'oversample': call['os']}
+    kw = {'pixelscale': arg_form(fl_arg(call['du']), call.get('du_form')),
+          'oversample': np.int64(call['os']) if call.get('os_form') == 'np' else call['os']}
     if call.get('shape') is not None:
         kw['shape'] = arg_form(call['shape'], call.get('shape_form'))
     if call.get('prop_shape') is not None:
         kw['prop_shape'] = arg_form(call['prop_shape'], call.get('shape_form'))
     if call.get('omask') is not None:
-        kw['mask'] = np.array(call['omask'], dtype=NPDT.get(call.get('omask_dtype'), int))
+        kw['mask'] = handed('output mask', wrap_array(np.array(call['omask'], dtype=NPDT.get(call.get('omask_dtype'), int)),
+                                                    call.get('omask_wrap')))
     return lentil.propagate_dft(w, **kw)
 
 
@@ -299,8 +381,80 @@ def fresh_lentil():
 
 
 def _run(c):
+    del _HANDED[:]
+    res = _run0(c)
+    d = handed_changed()
+    if d and isinstance(res, dict):
+        res.setdefault('mutations', []).append({'step': 0, 'wavefront': -1, 'what': d})
+    return res
+
+
+def big_arrays(c):
+    """deterministic amplitude (small integers) and optional segment masks of a large case"""
+    n, m = c['n'], c['m']
+    r, cc = np.indices((n, m))
+    A = ((r * 7 + cc * 3) % 5 - 2) + 1j * ((r + 2 * cc) % 3 - 1)
+    A[A == 0] = 1
+    masks = None
+    if c.get('segments'):
+        gr, gc = c['segments']                      # a gr x gc grid of rectangular segments with one-sample gaps
+        masks = np.zeros((gr * gc, n, m), dtype=int)
+        hr, hc = n // gr, m // gc
+        for i in range(gr):
+            for j in range(gc):
+                masks[i * gc + j, i * hr:(i + 1) * hr - 1, j * hc:(j + 1) * hc - 1] = 1
+    return A, masks
+
+
+def run_big(lentil, c):
+    """sizes behind typical thresholds (>= 2**20 output samples, > 1000 rows, > 8 segments, sizes that no block count
+    divides): vectorised reference of the same defining sum, verdict computed here"""
+    A, masks = big_arrays(c)
+    wl, z, dx = fl(c['wl']), fl(c['z']), fl_arg(c['dx'])
+    handed('amplitude', A)
+    w = lentil.Wavefront(wl) * lentil.Pupil(amplitude=A, mask=masks, pixelscale=dx, focal_length=z)
+    call = c['call']
+    out = do_call(lentil, w, call)
+    plane = A if masks is None else A * masks.sum(axis=0)
+    n, m = plane.shape
+    S, P = call_shapes(call, (n, m))
+    os_ = call['os']
+    (ar, ac), = case_alphas(c)[0]
+    Ro, Co, Pro, Pco = S[0] * os_, S[1] * os_, P[0] * os_, P[1] * os_
+    u = np.arange(Ro) - Ro // 2
+    v = np.arange(Co) - Co // 2
+    x = np.arange(n) - n // 2
+    y = np.arange(m) - m // 2
+    tr = float(ar) * np.outer(u, x)
+    tc = float(ac) * np.outer(y, v)
+    F = np.exp(-2j * np.pi * (tr - np.floor(tr))) @ plane @ np.exp(-2j * np.pi * (tc - np.floor(tc)))
+    F *= math.sqrt(abs(float(ar * ac)))
+    inside = np.outer((u >= -(Pro // 2)) & (u <= -(Pro // 2) + Pro - 1), (v >= -(Pco // 2)) & (v <= -(Pco // 2) + Pco - 1))
+    exp = np.where(inside, F, 0)
+    got = np.asarray(out.field)
+    verdict = None
+    if got.shape != exp.shape:
+        verdict = f'output shape {got.shape}, expected {exp.shape}'
+    else:
+        verdict = arr_close(got, exp)
+        verdict = verdict and 'Wavefront.field is not the unitary Fraunhofer sum on the evaluated window and zero elsewhere: ' + verdict
+        if not verdict:
+            verdict = arr_close(np.asarray(out.intensity), np.abs(exp) ** 2)
+            verdict = verdict and 'Wavefront.intensity is not |field|^2 of the Fraunhofer sum: ' + verdict
+    if not verdict and str(out.ptype) != 'image':
+        verdict = f'output ptype {out.ptype}'
+    return {'input': {'shape': [n, m], 'ptype': str(w.ptype)}, 'big': True, 'verdict': verdict,
+            'out_shape': [int(x) for x in got.shape], 'max_abs': float(np.max(np.abs(got)))}
+
+
+def _run0(c):
     lentil = fresh_lentil()
     res = {}
+    if c['dir'] == 'big':
+        try:
+            return run_big(lentil, c)
+        except Exception as e:
+            return {'input': {}, 'big': True, 'err': type(e).__name__, 'verdict': f'raised {type(e).__name__}: {e}'[:300]}
     try:
         w = build_wavefront(lentil, c)
         res['input'] = wf_summary(w)
@@ -383,6 +537,8 @@ def enc_call(call):
 
 def encode(c):
     """the model is run on the fields the implementation's wavefront holds (public attributes)"""
+    if c['dir'] == 'big':
+        return None
     impl = run_impl(c)
     if 'input' not in impl:
         return None
@@ -393,6 +549,8 @@ def encode(c):
         if f['ntilt'] or len(f['shape']) != 2:
             return None
     L = case_L(c)
+    if L > LMODEL:
+        return None          # phases not on a small root-of-unity grid (near ties, SI-like values): oracle only
     out = [{'roundtrip': 2, 'history': 3}.get(c['dir'], 1), L]
     out += C.enc_q(w['wl']) + [1] + C.enc_q(w['ps'][0]) + C.enc_q(w['ps'][1]) + [1] + C.enc_q(w['z'])
     out += [w['shape'][0], w['shape'][1], PT[w['ptype']], 0, len(w['fields'])]
@@ -406,15 +564,26 @@ def encode(c):
         st = steps_of(c)
         out += [len(st)]
         ptype = {0: w['ptype']}
+        shp = {0: tuple(w['shape'])}
         for k, (src, call, mul) in enumerate(st, start=1):
             if mul is None:
                 out += [0, src] + enc_call(call)
                 ptype[k] = SWAP.get(ptype[src], 'none')
+                S, _P = call_shapes(call, shp[src])
+                shp[k] = (S[0] * call['os'], S[1] * call['os'])
+                continue
+            if mul['kind'] == 'tilt' or 'scalar' in mul:
+                # a plane with a 0-d amplitude: one 0-d phasor at offset (0, 0); shape and type are kept.  A Tilt is the
+                # transparent plane (amplitude 1) plus tilt metadata, which the untilted views compared here do not see
+                a = (1, 0) if mul['kind'] == 'tilt' else tuple(mul['scalar'])
+                ptype[k], shp[k] = ptype[src], shp[src]
+                out += [1, src, shp[k][0], shp[k][1], PT[ptype[k]], 1, 0] + C.enc_c((Fraction(a[0]), Fraction(a[1]))) + [0, 0, 0]
                 continue
             # the plane as Plane.multiply sees it: its phasors; result type from the multiplication table
             ptype[k] = mul['kind'] if ptype[src] in ('none', mul['kind']) else 'none'
             ph = plane_phasors(mul)
-            out += [1, src, len(mul['A']), len(mul['A'][0]), PT[ptype[k]], len(ph)]
+            shp[k] = (len(mul['A']), len(mul['A'][0]))
+            out += [1, src, shp[k][0], shp[k][1], PT[ptype[k]], len(ph)]
             for data, off in ph:
                 out += [2, data.shape[0], data.shape[1]]
                 for v in data.ravel():
@@ -471,9 +640,9 @@ def decode(c, ints):
         info = step_info(c)
         n = rd.z()
         assert n == len(info)
-        out = {'steps': [read_wavefront(rd, L, i['scale']) for i in info]}
+        out = {'steps': [dict(read_wavefront(rd, L, i['scale']), unit=i['unit'], tilted=i['tilted']) for i in info]}
     else:
-        out = read_wavefront(rd, L, case_scale(c))
+        out = dict(read_wavefront(rd, L, case_scale(c)), unit=step_info(c)[-1]['unit'])
     assert rd.done()
     return out
 
@@ -486,7 +655,9 @@ def cx(a):
     return a.astype(complex)
 
 
-def arr_close(a, b, tol=TOL):
+def arr_close(a, b, tol=TOL, unit=1.0):
+    """unit = natural magnitude of the compared quantity (1 for integer amplitudes, 2**aexp for scaled ones): the
+    tolerance is relative, so a check on amplitudes of 1e-12 is as tight as on amplitudes of 1"""
     a = np.asarray(a, dtype=complex)
     b = np.asarray(b, dtype=complex)
     if a.shape != b.shape:
@@ -494,7 +665,7 @@ def arr_close(a, b, tol=TOL):
     if a.size == 0:
         return None
     d = np.max(np.abs(a - b))
-    if d > tol * (1 + np.max(np.abs(b))):
+    if d > tol * (unit + np.max(np.abs(b))):
         i = np.unravel_index(np.argmax(np.abs(a - b)), a.shape)
         return f'max difference {d:.3g} at index {tuple(int(x) for x in i)}: {a[i]} vs {b[i]}'
     return None
@@ -510,13 +681,15 @@ def compare(c, impl, model):
             return f'implementation {impl.get("err")} while building the wavefront'
         st = steps_of(c)
         for k, (a, b) in enumerate(zip(impl['steps'], model['steps']), start=1):
+            if b.get('tilted') and st[k - 1][2] is None:
+                continue          # the propagation of a tilted branch belongs to C04 (the model here has no tilt shift)
             if st[k - 1][2] is not None:
                 # behind one more plane: only the embedding (Wavefront.field) is pinned, not the grouping into Fields
                 msg = None
                 if ('err' in a) != ('err' in b):
                     msg = f'implementation {a.get("err", "returned a value")}, model {b.get("err", "returned a value")}'
                 elif 'err' not in a:
-                    msg = arr_close(cx(a['field']), b['field'])
+                    msg = arr_close(cx(a['field']), b['field'], unit=b.get('unit', 1.0))
                     msg = msg and 'Wavefront.field behind the plane: ' + msg
             else:
                 msg = compare_one(a, b)
@@ -527,6 +700,7 @@ def compare(c, impl, model):
 
 
 def compare_one(impl, model):
+    U = model.get('unit', 1.0)
     if ('err' in impl) != ('err' in model):
         return f'implementation {impl.get("err", "returned a value")}, model {model.get("err", "returned a value")}'
     if 'err' in impl:
@@ -549,20 +723,20 @@ def compare_one(impl, model):
     for k, a in enumerate(o['fields']):
         hit = None
         for b in left:
-            if a['shape'] == b['shape'] and a['offset'] == b['offset'] and arr_close(cx(a['data']), b['data']) is None:
+            if a['shape'] == b['shape'] and a['offset'] == b['offset'] and arr_close(cx(a['data']), b['data'], unit=U) is None:
                 hit = b
                 break
         if hit is None:
             b = left[0]
             if a['shape'] != b['shape'] or a['offset'] != b['offset']:
                 return f'output field {k}: shape/offset {a["shape"]}/{a["offset"]} vs model {b["shape"]}/{b["offset"]}'
-            return f'output field {k} data matches no field of the model: {arr_close(cx(a["data"]), b["data"])}'
+            return f'output field {k} data matches no field of the model: {arr_close(cx(a["data"]), b["data"], unit=U)}'
         left.remove(hit)
     for name in ('field', 'intensity'):
         mv = model[name]
         if isinstance(mv, dict):
             return f'model could not render {name}: {mv["err"]}'
-        msg = arr_close(cx(impl[name]) if name == 'field' else np.asarray(impl[name]), mv)
+        msg = arr_close(cx(impl[name]) if name == 'field' else np.asarray(impl[name]), mv, unit=U if name == 'field' else U * U)
         if msg:
             return f'Wavefront.{name}: {msg}'
     return None
@@ -639,6 +813,8 @@ def oracle(c, impl):
         return f'building the wavefront raised {impl.get("err")}'
     if c['dir'] == 'history':
         return oracle_history(c, impl)
+    if c['dir'] == 'big':
+        return impl.get('verdict') or (mutation_msg(impl['mutations'][0]) if impl.get('mutations') else None)
     if impl.get('mutations'):
         return mutation_msg(impl['mutations'][0])
     if c['dir'] == 'none':
@@ -663,10 +839,11 @@ def oracle(c, impl):
     if c['dir'] == 'roundtrip':
         exp, win = fraunhofer(np.array(exp), al[1][0], al[1][1], S2, P2, c['call2']['os'], c['call2'].get('omask'))
         os_, S_, du_ = c['call2']['os'], S2, c['call2']['du']
-    msg = arr_close(cx(impl['field']), exp)
+    U = step_info(c)[-1]['unit']
+    msg = arr_close(cx(impl['field']), exp, unit=U)
     if msg:
         return 'Wavefront.field is not the unitary Fraunhofer sum on the evaluated window and zero elsewhere: ' + msg
-    msg = arr_close(np.asarray(impl['intensity']), np.abs(np.array(exp)) ** 2)
+    msg = arr_close(np.asarray(impl['intensity']), np.abs(np.array(exp)) ** 2, unit=U * U)
     if msg:
         return 'Wavefront.intensity is not |field|^2 of the Fraunhofer sum: ' + msg
     o = impl['out']
@@ -697,6 +874,8 @@ def oracle(c, impl):
 
 
 def mutation_msg(m):
+    if m.get('wavefront') == -1:
+        return m['what'] + ' by the calls of this case (arrays handed to the public API belong to the caller)'
     return (f'call {m["step"]} changed wavefront #{m["wavefront"]} (0 = the initial wavefront, j = result of call j) '
             f'that the caller still holds: {m["what"]}; a later propagation of it no longer sees the same input plane')
 
@@ -724,6 +903,16 @@ def oracle_history(c, impl):
         if mul is not None:
             if 'err' in got:
                 return f'step {k}: multiplying by a {mul["kind"]} plane raised {got["err"]}'
+            if k in muts and not note:
+                note = f' [earlier, {mutation_msg(muts[k])}]'
+            if mul['kind'] == 'tilt':
+                # a tilted branch: its own far field is C04's business; the wavefront it was split off must not change
+                shape[k], ptype[k] = shape[src], ptype[src]
+                continue
+            if 'scalar' in mul:
+                plane[k] = complex(*mul['scalar']) * plane[src]
+                shape[k], ptype[k] = shape[src], ptype[src]
+                continue
             T = transmission(mul)
             plane[k] = times_canvas(plane[src], T)       # product of the transmissions, sample by sample
             shape[k] = T.shape
@@ -742,10 +931,11 @@ def oracle_history(c, impl):
         os_ = call['os']
         exp, win = fraunhofer(plane[src], info[k - 1]['ar'], info[k - 1]['ac'], S, P, os_, call.get('omask'))
         tag = f'call {k} (propagating {"the initial wavefront" if src == 0 else f"the result of call {src}"}){note}'
-        msg = arr_close(cx(got['field']), exp)
+        U = info[k - 1]['unit']
+        msg = arr_close(cx(got['field']), exp, unit=U)
         if msg:
             return f'{tag}: Wavefront.field is not the unitary Fraunhofer sum on the evaluated window and zero elsewhere: ' + msg
-        msg = arr_close(np.asarray(got['intensity']), np.abs(np.array(exp)) ** 2)
+        msg = arr_close(np.asarray(got['intensity']), np.abs(np.array(exp)) ** 2, unit=U * U)
         if msg:
             return f'{tag}: Wavefront.intensity is not |field|^2 of the Fraunhofer sum: ' + msg
         o = got['out']
@@ -896,8 +1086,17 @@ def rnd_call(rng, wshape, maxs, maxos):
 
 def rnd_forms(rng, call):
     """legal spellings of the same arguments: tuple / list / ndarray for per-axis values, mask dtypes"""
-    for k in ('du_form', 'shape_form', 'omask_dtype'):
+    for k in ('du_form', 'shape_form', 'omask_dtype', 'os_form', 'omask_wrap'):
         call.pop(k, None)
+    if not isinstance(call['du'], list) and rng.random() < 0.25:
+        call['du_form'] = rng.choice(['0d', 'arr1', 'npscalar'])
+    if not isinstance(call.get('shape'), list) and not isinstance(call.get('prop_shape'), list) \
+            and (call.get('shape') is not None or call.get('prop_shape') is not None) and rng.random() < 0.4:
+        call['shape_form'] = rng.choice(['0d', 'arr1', 'npscalar'])
+    if rng.random() < 0.15:
+        call['os_form'] = 'np'
+    if call.get('omask') is not None and rng.random() < 0.2:
+        call['omask_wrap'] = rng.choice(['ma', 'ma_masked', 'matrix', 'subclass'])
     if isinstance(call['du'], list) and rng.random() < 0.5:
         call['du_form'] = rng.choice(['list', 'array'])
     if (isinstance(call.get('shape'), list) or isinstance(call.get('prop_shape'), list)) and rng.random() < 0.4:
@@ -1040,6 +1239,74 @@ def rnd_train(rng, c, wshape, maxs):
     return steps, 'pinhole'
 
 
+def rnd_branch(rng, c, wshape, maxs):
+    """a shared wavefront: w passes a plane, then branches of it go through a Tilt / a transparent or scalar plane (results
+    kept or dropped), and w itself - which never passed those - is propagated before and after"""
+    c['start'] = 'pupil' if rng.random() < 0.75 else 'image'
+    kind = c['start']
+    for _ in range(50):
+        c1, so = rnd_call(rng, wshape, maxs, 3)
+        if usable(c1, wshape):
+            break
+    else:
+        return None
+    steps = []
+    if rng.random() < 0.4:
+        steps.append({'src': 0, 'call': c1})
+    first = len(steps)
+    for _ in range(rng.randint(1, 2)):
+        t = rng.random()
+        if t < 0.55:
+            mul = {'kind': 'tilt', 'x': rng.choice(['1/16', '-1/8', '1/4', '-1/32', '0']), 'y': rng.choice(['1/8', '-1/16', '1/2', '0'])}
+            if mul['x'] == '0' and mul['y'] == '0':
+                mul['x'] = '1/8'
+        elif t < 0.8:
+            mul = {'kind': kind, 'scalar': [1, 0], 'int': rng.random() < 0.5, 'default': rng.random() < 0.5}     # transparent
+        else:
+            mul = {'kind': kind, 'scalar': [rng.choice([-2, -1, 2, 3]), rng.choice([0, 0, 1, -2])]}
+        steps.append({'src': 0, 'mul': mul})
+    steps.append({'src': 0, 'call': json.loads(json.dumps(c1))})
+    scal = [k for k, st in enumerate(steps, start=1) if 'mul' in st and 'scalar' in st['mul']]
+    if scal and rng.random() < 0.6:
+        c2, _w = vary(rng, c1, wshape, maxs)
+        steps.append({'src': rng.choice(scal), 'call': c2})       # the branch behind a scalar plane: a times the field
+    if rng.random() < 0.3:
+        c3, _w = vary(rng, c1, wshape, maxs)
+        steps.append({'src': 0, 'call': c3})
+    return steps, 'branch'
+
+
+NEAR = [0.0, 1e-9, -1e-7, 1e-6, -1e-6, 4e-6, -4e-6, 9e-6, -9e-6, 3e-5, -3e-5, 1e-4, -2e-4]
+
+
+def rnd_neartie(rng, maxn):
+    """alpha within 1e-9 .. 2e-4 (relative) of the FFT-matched sampling 1/n without being equal to it, output window =
+    input array, both planes centred: the Fraunhofer sum for the REQUESTED alpha is pinned, at the tolerance of every
+    other case.  The values are arbitrary floats, so these cases are decided by the oracle alone"""
+    n, m = rng.randint(2, maxn), rng.randint(2, maxn)
+    if rng.random() < 0.3:
+        m = n
+    nzv = lambda: rng.choice([-4, -3, -2, -1, 1, 2, 3, 4])
+    A = [[[nzv(), rng.randint(-4, 4)] for _ in range(m)] for _ in range(n)]
+    os = 2 if (n % 2 == 0 and m % 2 == 0 and rng.random() < 0.3) else 1
+    eps_r = rng.choice(NEAR)
+    eps_c = eps_r if rng.random() < 0.7 else rng.choice(NEAR)
+    k = rng.choice([1, 1, 1, 2])                    # also near 1/(2n): half-critical sampling
+    dur = float(Fraction(os, n * k)) * (1.0 + eps_r)
+    duc = float(Fraction(os, m * k)) * (1.0 + eps_c)
+    wl = rng.choice([1.0, 0.5, 0.75])
+    c = {'dir': 'pupil' if rng.random() < 0.6 else 'image', 'A': A, 'mask': None,
+         'wl': str(Fraction(wl)), 'z': '1', 'dx': str(Fraction(wl)), 'neartie': [eps_r, eps_c, k],
+         'call': {'du': [str(Fraction(dur)), str(Fraction(duc))] if (n != m or eps_r != eps_c or rng.random() < 0.5)
+                  else str(Fraction(dur)),
+                  'shape': rng.choice([None, [n // os, m // os]]), 'prop_shape': None, 'os': os, 'omask': None}}
+    if isinstance(c['call']['du'], str) and dur != duc:
+        c['call']['du'] = [str(Fraction(dur)), str(Fraction(duc))]
+    if rng.random() < 0.2:
+        c['call']['omask'] = [[1] * m for _ in range(n)]
+    return c
+
+
 def rnd_history(rng, wshape, maxs):
     """2-4 propagations that re-use wavefront objects: the same wavefront with one argument varied at a time, or a
     pupil -> image -> pupil chain whose intermediate wavefront is propagated more than once"""
@@ -1087,10 +1354,26 @@ def generate(rng, tier):
     maxn = 6 if quick else 8
     maxs = 5 if quick else 8
     Lmax = 64 if quick else 160
+    big = [
+        {'n': 3, 'm': 4, 'call': {'du': '1/1024', 'shape': [1024, 1024], 'prop_shape': None, 'os': 1, 'omask': None}},   # 2**20 samples
+        {'n': 1100, 'm': 3, 'call': {'du': ['1/1024', '1/4'], 'shape': [4, 5], 'prop_shape': None, 'os': 1, 'omask': None}},   # > 1000 rows
+        {'n': 2, 'm': 2, 'call': {'du': '1/1024', 'shape': [1025, 1023], 'prop_shape': [1001, 999], 'os': 1, 'omask': None}},
+        {'n': 24, 'm': 30, 'segments': [3, 5], 'call': {'du': '1/16', 'shape': [8, 8], 'prop_shape': None, 'os': 2, 'omask': None}},  # 15 segments
+        {'n': 129, 'm': 127, 'call': {'du': '1/128', 'shape': [43, 37], 'prop_shape': None, 'os': 3, 'omask': None}},     # odd, no block divides
+        {'n': 1024, 'm': 1024, 'call': {'du': '1/1024', 'shape': [3, 3], 'prop_shape': None, 'os': 1, 'omask': None}},   # 2**20 input samples
+    ]
+    for b in (big[:2] + big[3:4] if quick else big):
+        yield dict({'dir': 'big', 'wl': '1/2', 'z': '1', 'dx': '1/2'}, **b)
     out = 0
     tries = 0
     while out < n_cases and tries < 200000:
         tries += 1
+        if rng.random() < 0.03:
+            c = rnd_neartie(rng, maxn)
+            if case_alphas(c)[1]:
+                out += 1
+                yield c
+            continue
         t = rng.random()
         d = 'pupil' if t < 0.36 else 'image' if t < 0.49 else 'roundtrip' if t < 0.59 else 'history' if t < 0.97 else 'none'
         small = d in ('roundtrip', 'history')
@@ -1113,8 +1396,11 @@ def generate(rng, tier):
             if mask is not None and rng.random() < 0.5:
                 c['mdtype'] = rng.choice(['bool', 'float'])
         if d == 'history':
-            if rng.random() < 0.45:
+            t2 = rng.random()
+            if t2 < 0.35:
                 h = rnd_train(rng, c, wshape, min(maxs, 4))
+            elif t2 < 0.55:
+                h = rnd_branch(rng, c, wshape, min(maxs, 4))
             else:
                 c['start'] = 'pupil' if rng.random() < 0.75 else 'image'
                 h = rnd_history(rng, wshape, min(maxs, 4))
@@ -1133,12 +1419,19 @@ def generate(rng, tier):
             continue
         if any(abs(a) > 2 for pr in al for a in pr):
             continue
+        # the same data in other legal guises: ndarray subclasses, amplitudes scaled over many decades
+        if rng.random() < 0.15:
+            c['awrap'] = rng.choice(['ma', 'ma_masked', 'matrix', 'subclass'])
+        if not c.get('adtype') and rng.random() < 0.15:
+            c['aexp'] = rng.choice([-30, -37, -43, 20])
         out += 1
         yield c
 
 
 def classify(c):
     k = c['dir']
+    if k == 'big':
+        return 'big'
     if k == 'history':
         k += '/' + c.get('pattern', '?') + '/' + c.get('start', 'pupil')
     if isinstance(c.get('mask'), list) and c['mask'] and isinstance(c['mask'][0][0], list):
@@ -1147,11 +1440,17 @@ def classify(c):
         k += '/mask'
     if c.get('adtype'):
         k += '/' + c['adtype']
+    if c.get('neartie'):
+        k += '/neartie'
+    if c.get('awrap'):
+        k += '/' + c['awrap']
+    if c.get('aexp'):
+        k += '/scaled'
     return k
 
 
 def nontrivial(c):
-    if c['dir'] == 'history':
+    if c['dir'] in ('history', 'big'):
         return True
     n, m = len(c['A']), len(c['A'][0])
     call = c['call']
